@@ -223,6 +223,14 @@ impl Series1 {
             if v0 <= y_equals && v1 >= y_equals || v0 >= y_equals && v1 <= y_equals {
                 let x0 = self.x[j];
                 let x1 = self.x[j + 1];
+                if v0 == v1 {
+                    // The segment is flat and lies exactly on the level: every abscissa in it is
+                    // a solution, so its two ends are reported (interpolating would divide zero by
+                    // zero and the NaN would abort the sort below)
+                    crossings.push(x0);
+                    crossings.push(x1);
+                    continue;
+                }
                 let m = (v1 - v0) / (x1 - x0);
                 if !m.is_finite() {
                     continue;
